@@ -45,6 +45,10 @@ type Ledger struct {
 	LastSlashHookErr string
 	// Due are the unbondings that the most recent end-of-block had to pay.
 	Due []*LUnb
+	// ClaimInterval / RewardDelay: what the last accepted governance message configured
+	// (-1: no update_params seen yet in this history)
+	ClaimInterval int64
+	RewardDelay   int64
 }
 
 func (l *Ledger) init() {
@@ -52,6 +56,7 @@ func (l *Ledger) init() {
 	l.Donated = map[string]*big.Int{}
 	l.MintedFees = sdk.NewCoins()
 	l.DonorMinted = sdk.NewCoins()
+	l.ClaimInterval, l.RewardDelay = -1, -1
 }
 
 func bigOf(s string) *big.Int {
@@ -90,6 +95,10 @@ func (l *Ledger) record(x *Exec, op *Op, res *Res) {
 	case KUnbTime:
 		if res.OK {
 			l.UnbondingTime = time.Duration(op.Dt)
+		}
+	case KParams:
+		if res.OK {
+			l.ClaimInterval, l.RewardDelay = op.Interval, op.Delay
 		}
 	case KBlock:
 		// The end-of-block part ran at the *old* block time x.LastEndTime.
